@@ -76,6 +76,13 @@ class GenericResolver(Generic[K, M]):
             return tp
         return tp[tuple(chain.from_iterable(type_var_to_actual[type_var] for type_var in params))]
 
+    def _get_orig_bases(self, tp) -> tuple:
+        # ``__orig_bases__`` is inherited, so only the value from the class's own namespace describes its bases
+        try:
+            return vars(tp).get("__orig_bases__", tp.__bases__)
+        except (TypeError, AttributeError):
+            return ()
+
     def _get_members_by_parents(self, tp) -> MembersStorage[K, M]:
         members_storage = self._raw_members_getter(tp)
         if not any(
@@ -83,11 +90,12 @@ class GenericResolver(Generic[K, M]):
             for tp in members_storage.members.values()
         ):
             return members_storage
-        if not hasattr(tp, "__orig_bases__"):
+        orig_bases = self._get_orig_bases(tp)
+        if not orig_bases:
             return members_storage
 
         bases_members: dict[K, TypeHint] = {}
-        for base in reversed(tp.__orig_bases__):
+        for base in reversed(orig_bases):
             bases_members.update(self.get_resolved_members(base).members)
 
         return replace(
